@@ -92,7 +92,7 @@ def gen_record(rng, r):
                     kind = "det"
                 # refit: estimator objects are fitted this many times before the result is taken (int seeds only);
                 # not part of the comparison key: the number of earlier fits must not matter
-                ops.append({"op": "call", "t": ti, "kind": kind, "s": rng.choice(seeds), "refit": rng.choice([1, 1, 2, 3]),
+                ops.append({"op": "call", "t": ti, "kind": kind, "s": rng.choice(seeds), "refit": rng.choice([1, 1, 2, 3, 12, 13]),
                             # "dirty": the argument arrays are buffers the caller has used before: the same objects were
                             # first filled with other values and passed to the same function, then refilled in place
                             "dirty": rng.random() < 0.12})
@@ -213,9 +213,11 @@ class Run:
         else:
             seed_obj = None
         g = catalog.Choices(replay=tm["choices"], seed_value=seed_obj, callback=self.callback if e["cb"] else None, dtype=tm.get("dtype"))
-        g.refit = op.get("refit", 1) if kind == "int" else 1
+        g.refit = op.get("refit", 1) if kind in ("int", "det") else 1
         if g.refit > 1:
             self.cnt.inc("probe:estimator_refitted_before_result")
+        if g.refit > 10:
+            self.cnt.inc("probe:estimator_fitted_on_other_data_before")
         call = e["build"](g)
         tags = fp_tags(call["kwargs"], g.notes)
         if op.get("dirty") and kind in ("int", "det") and not call.get("exempt"):
@@ -223,7 +225,7 @@ class Run:
                 # the pre-call changed its arguments beyond what was restored (documented in-place parameter,
                 # or the known C15 finding): not a fair "same arguments" call any more -> start from fresh ones
                 g = catalog.Choices(replay=tm["choices"], seed_value=seed_obj, callback=self.callback if e["cb"] else None, dtype=tm.get("dtype"))
-                g.refit = op.get("refit", 1) if kind == "int" else 1
+                g.refit = op.get("refit", 1) if kind in ("int", "det") else 1
                 call = e["build"](g)
         st = t.local
         import tensorly.tenalg as _ta
